@@ -529,8 +529,8 @@ pub fn main(ctx: &Ctx) {
     campaign(
         ctx,
         Campaign {
-            total_cases: ctx.pick(1_000, 20_000),
-            max_shrink_iters: 200,
+            total_cases: ctx.pick(1_000, 15_000),
+            max_shrink_iters: 100,
             limits: Limits { cpu_s: 20, wall_s: 120, as_bytes: 4 << 30 },
             meta: Meta {
                 rule: "writer (offered deadline Pw in 200 ms..2 s) and reader (requested Pr >= Pw) on a perfect network; timeline on a 25 ms grid of writes to 1-3 instances (bursts, gaps of 0.3P..3.7P of either period) and observation points (writer: status getter + status condition or listener; reader: recording listener or status condition); non-trivial = some instance had a gap > 2P (of the offered or requested period) and a later observation whose admissible count interval is a single value for both sides; distinct = hash of the case",
